@@ -150,6 +150,10 @@ func namedSpecs() []spec.Spec {
 			{Op: "AllowURLSchemes", Names: []string{"http", "https"}}, opt("AllowRelativeURLs", true), {Op: "AllowDataAttributes"},
 			{Op: "AllowStyles", Names: []string{"color"}, Scope: "global"}, {Op: "RewriteSrc", Fn: "proxy"},
 		}},
+		// AllowUnsafe(true) without allowing script / style themselves: the switch admits nothing by itself, and what a
+		// dropped script / style element contained must not come out as markup (with and without un-skipped content)
+		{Name: "unsafe-no-script", Base: "new", Calls: []C{els("b", "p"), opt("AllowUnsafe", true)}},
+		{Name: "unsafe-unskipped-no-script", Base: "new", Calls: []C{els("b", "p"), opt("AllowUnsafe", true), {Op: "AllowElementsContent", Names: []string{"script", "style"}}}},
 		// a zero-value Policy{} whose options are set before the first call that initialises its tables
 		{Name: "literal-options-first", Base: "literal", Calls: []C{
 			opt("AddSpaceWhenStrippingTag", true), {Op: "AllowComments"}, opt("AllowRelativeURLs", true), opt("RequireNoFollowOnLinks", true),
